@@ -153,6 +153,7 @@ func NewProxy(s *server) elton.Handler {
 		originalHeader := c.Header().Clone()
 		c.ResetHeader()
 		err = upstream.Proxy(c)
+		verifPoint("proxy.afterUpstream")
 		// 如果出错超时，则转换为504 timeout，category:pike
 		if err != nil {
 			if he, ok := err.(*hes.Error); ok {
